@@ -209,8 +209,10 @@ def check(ck):
                     continue
             if fi is fd:
                 # _dispatch(method, params, config): `config or self.json_config`, callers pass the adapter
-                va = prov.value_alts(t)
-                okk = ("param", "config") in va and va <= set([("param", "config"), ("attr", ("param", "self"), "json_config")])
+                # `config or self.json_config` (also spelled `if not config: config = self.json_config`, which the normaliser
+                # rewrites to the same term) or the parameter itself: the caller's configuration wins whenever it is given
+                okk = all(a == ("or", (("param", "config"), ("attr", ("param", "self"), "json_config"))) or a == ("param", "config")
+                          for a in prov.alts(t))
                 ck.require(okk, "C13.4", label, "uses the request-specific config handed by the caller",
                            "a reply of _dispatch is built with %s instead of the request-specific configuration" % prov.show(t),
                            q.loc(fi, n))
@@ -253,6 +255,27 @@ def check(ck):
                        "copy made only when \"jsonrpc\" is absent from this request",
                        "the 1.0 compatibility copy is not guarded by `\"jsonrpc\" not in %s`: the form of the reply does not "
                        "follow the request" % req, q.loc(fi, n))
+            # the other conjuncts of the guard compare the server's version with a constant: for a 2.0 server (every spelling
+            # of 2.0 a configuration may hold) they must all hold, else a 2.0 server never adapts to a 1.0 request
+            import operator as _op
+            OPS = {ast.Lt: _op.lt, ast.LtE: _op.le, ast.Gt: _op.gt, ast.GtE: _op.ge, ast.Eq: _op.eq, ast.NotEq: _op.ne}
+            for d_ in dom[n.id]:
+                b = g.nodes[d_]
+                if b.kind != "branch" or not (isinstance(b.test, ast.Compare) and len(b.test.ops) == 1 and type(b.test.ops[0]) in OPS):
+                    continue
+                l_, r_ = b.test.left, b.test.comparators[0]
+                side = None
+                if isinstance(l_, ast.Attribute) and l_.attr == "version" and isinstance(r_, ast.Constant) and isinstance(r_.value, (int, float)):
+                    side = lambda v, c=r_.value, o=OPS[type(b.test.ops[0])]: o(v, c)
+                elif isinstance(r_, ast.Attribute) and r_.attr == "version" and isinstance(l_, ast.Constant) and isinstance(l_.value, (int, float)):
+                    side = lambda v, c=l_.value, o=OPS[type(b.test.ops[0])]: o(c, v)
+                if side is None:
+                    continue
+                holds = all(side(v) == b.polarity for v in (2.0, 2))
+                ck.require(holds, "C13.4", "%s: the adapter is made for a 2.0 server (`%s`%s)" % (q.fn(fi), dump(b.test), "" if b.polarity else " false"),
+                           "true for version 2.0",
+                           "the 1.0-compatibility copy is made only when `%s` is %s, which does not hold for a server configured with version 2.0: "
+                           "such a server answers 1.0 requests in 2.0 form" % (dump(b.test), b.polarity), q.loc(fi, b))
             var = n.ast.targets[0].id if isinstance(n.ast.targets[0], ast.Name) else None
             sets = [m for m in g.live_nodes() if m.kind == "stmt" and isinstance(m.ast, ast.Assign)
                     and dump(m.ast.targets[0]) == "%s.version" % var and n.id in dom[m.id]]
@@ -273,3 +296,4 @@ def check(ck):
     from rules import c14
     common.import_rules(ck, c14, {"C14.4": "C13.7"})
     ck.floor("C13.7", 10)
+    common.check_config_defaults(ck, "C13.6", ("version",))
